@@ -36,6 +36,13 @@ Theorem C14_bn_to_mn_valid : forall (R : csr) g (c : cpd R),
 Proof. exact bn_to_mn_scope_clique. Qed.
 Print Assumptions C14_bn_to_mn_valid.
 
+(* ---- add_factors (sessions): the valid prefix is appended in order with multiplicity, nothing else
+   changes; the call raises iff some factor mentions a non-node, and the factors before it stay added *)
+Theorem C14_add_factors : forall (R : csr) ns new fs,
+  add_factors R ns fs new = (fs ++ valid_prefix R ns new, forallb (fun f => subsetn (fvars f) ns) new).
+Proof. exact add_factors_spec. Qed.
+Print Assumptions C14_add_factors.
+
 (* ---- MN -> FG: the factor LIST is unchanged -- same multiset with multiplicity, hence same joint
    and same partition function *)
 Theorem C14_mn_to_fg_joint : forall (R : csr) (card : var -> nat) (m : mnet R),
